@@ -12,11 +12,11 @@ CHECK_MODULE = "Check.C18"
 ORACLE_MODULE = "Check.C18o"
 TARGETS_CHECK = ["theories/Check/C18o.vo", "theories/Check/C18.vo"]
 TARGETS_PROP = ["theories/Properties/C18.vo"]
-SHARD = 120
+SHARD = 400
 RULE = ("histories of Put/Get/Remove run on a staged copy of /repo/internal/maplike/skiplist whose rand.Source is injected, so that "
         "the harness chooses the height of every new node (the Int63 value is computed from the list's own probability table; the "
         "height the node really got is read back from String()). Quick tier: one node of every height 1..levels inserted/removed in "
-        "both orders; the Int63 values near 2^63 that round to p = 1.0; every history of length 3 over 3 keys x heights 1..3 "
+        "both orders; the Int63 values near 2^63 that round to p = 1.0; every history of length 4 over 3 keys x heights 1..3 "
         "(Put(k,h), Remove(k)) and a seeded sample of 1200 of length 6 (half under the reversed order); 64 random histories of "
         "length 30..60 over universes of 3..20 int keys (incl. 0 = the head's zero key, +-2^31) and string keys, natural and "
         "reversed order traits (ord.Int, ord.From, ord.String, a custom Ord), in 8 scenarios: mixed, ascending inserts, descending "
@@ -139,8 +139,19 @@ def _opt(x):
     return "None" if x is None else "Some %s" % vlib.zlit(x)
 
 
+def _fingers(f):
+    n = len(f)
+    while n > 0 and f[n - 1] is None:
+        n -= 1
+    body = "[%s]" % "; ".join(_opt(x) for x in f[:n])
+    t = len(f) - n
+    if t >= 3:
+        return "%s ++ rn %d" % (body, t) if n else "rn %d" % t
+    return "[%s]" % "; ".join(_opt(x) for x in f)
+
+
 def _print(p):
-    return "[" + "; ".join("(%s, [%s])" % (vlib.zlit(e["k"]), "; ".join(_opt(x) for x in e["f"])) for e in p) + "]"
+    return "[" + "; ".join("(%s, %s)" % (vlib.zlit(e["k"]), _fingers(e["f"])) for e in p) + "]"
 
 
 def _step(st):
